@@ -113,7 +113,7 @@ def all_dags(n):
 
 
 # ---- component oracles (independent reading of the documented behaviour) -------------------------------------------
-def component_walk(ck, name, cfg, steps):
+def component_walk(ck, name, cfg, steps, idle=False, db_down=False):
     rng = ck.rng
     env = world.make_env(cfg)
     env.reset()
@@ -122,7 +122,7 @@ def component_walk(ck, name, cfg, steps):
     total = {}
     removed_any = False
     for st in range(steps):
-        if st == 3:
+        if st == 3 and not db_down:
             # a green user's application disappears (as a blue node-application-remove would make it): its next execution is
             # answered "unreachable", which the penalty components must treat as a failed attempt
             for a in env.game.agents.values():
@@ -132,7 +132,21 @@ def component_walk(ck, name, cfg, steps):
                             env.game.simulation.apply_request(world.form_request("node-application-remove", {"node_name": comp.config.node_hostname, "application_name": "database-client"}))
                         except Exception:
                             pass
-        if st == 0:
+        if st == 0 and db_down:
+            # the database is down before any page that needs it was ever fetched: those pages are answered 500
+            for nd in env.game.simulation.network.nodes.values():
+                if "database-service" in nd.software_manager.software:
+                    env.game.simulation.apply_request(["network", "node", nd.config.hostname, "service", "database-service", "stop"])
+        if st == 6 and not db_down:
+            # the web server loses its database client: from now on it answers 500 to the pages that need the database
+            for nd in env.game.simulation.network.nodes.values():
+                if "web-server" in nd.software_manager.software and "database-client" in nd.software_manager.software:
+                    try:
+                        env.game.simulation.apply_request(["network", "node", nd.config.hostname, "software_manager", "application", "uninstall", "database-client"])
+                        ck.count("web-server-lost-its-database-client")
+                    except Exception:
+                        pass
+        if st == 0 and not db_down:
             # a green user's browser is gone before its first fetch (nothing in its history yet): the failed attempt is a failure
             for a in env.game.agents.values():
                 for comp, _w in a.reward_function.reward_components:
@@ -143,7 +157,7 @@ def component_walk(ck, name, cfg, steps):
                             ck.count("browser-removed-before-first-fetch")
                         except Exception:
                             pass
-        obs, reward, term, trunc, info = env.step(rng.randrange(n))
+        obs, reward, term, trunc, info = env.step(0 if idle else rng.randrange(n))
         game = env.game
         state = game.get_sim_state()
         for aname, ag in game.agents.items():
@@ -160,6 +174,18 @@ def component_walk(ck, name, cfg, steps):
                 elif kind == "GreenAdminDatabaseUnreachablePenalty":
                     attempted = h.request == ["network", "node", comp.config.node_hostname, "application", "database-client", "execute"]
                     val = (Fraction(1) if h.response.status == "success" else Fraction(-1)) if attempted else (prev if comp.config.sticky else Fraction(0))
+                elif kind == "WebServer404Penalty":
+                    node = next((x for x in game.simulation.network.nodes.values() if x.config.hostname == comp.config.node_hostname), None)
+                    svc = node.software_manager.software.get(comp.config.service_name) if node is not None else None
+                    if svc is None:
+                        val = Fraction(0)
+                    else:
+                        codes = [getattr(c_, "value", c_) for c_ in (getattr(svc, "response_codes_this_timestep", None) or [])]
+                        if codes:
+                            # every answer of the step counts: 200 -> +1, 404 -> -1, anything else -> 0, averaged
+                            val = Fraction(sum(1 if c_ == 200 else -1 if c_ == 404 else 0 for c_ in codes), len(codes))
+                        else:
+                            val = prev if comp.config.sticky else Fraction(0)
                 elif kind == "WebpageUnavailablePenalty":
                     attempted = h.request == ["network", "node", comp.config.node_hostname, "application", "web-browser", "execute"]
                     node = next((x for x in game.simulation.network.nodes.values() if x.config.hostname == comp.config.node_hostname), None)
@@ -255,9 +281,24 @@ def run(ck):
     if mism is not None:
         ck.obligation("correspondence setup_reward_sharing/update_agents/RewardFunction.update = Model.Reward on %d agent-steps" % len(coq_in), "correspondence",
                       not mism, "" if not mism else "first mismatch: case %d model=%s impl=%s input=%s" % (mism[0][0], mism[0][1], coq_in[mism[0][0]][1], coq_in[mism[0][0]][0][:300]))
-    for k in range(ck.n(2, 8)):
+    for k in range(ck.n(4, 10)):
         component_walk(ck, "family/%d" % (ck.seed + k), family.generate(ck.seed + k), ck.n(30, 80))
     component_walk(ck, "pkg/data_manipulation.yaml", world.load_cfg(world.PKG + "/data_manipulation.yaml"), ck.n(40, 200))
+    # the defender also rewarded by what the web server answers (sticky and not): good pages first, then -- the database stopped
+    # for a while -- only server errors
+    for sticky in (True, False):
+        cfg = world.load_cfg(world.PKG + "/data_manipulation.yaml")
+        for a in cfg["agents"]:
+            if a.get("type") == "proxy-agent":
+                a["reward_function"]["reward_components"].append(
+                    {"type": "web-server-404-penalty", "weight": 0.5, "options": {"node_hostname": "web_server", "service_name": "web-server", "sticky": sticky}})
+        # one user reads the static front page (200), the other the page that needs the database (500 while it is down)
+        for nd in cfg["simulation"]["network"]["nodes"]:
+            if nd["hostname"] == "client_1":
+                for ap in nd.get("applications", []):
+                    if ap["type"] == "web-browser":
+                        ap.setdefault("options", {})["target_url"] = "http://arcd.com/"
+        component_walk(ck, "pkg/data_manipulation.yaml + web-server-404-penalty (sticky=%s), database down" % sticky, cfg, ck.n(24, 60), idle=True, db_down=True)
 
 
 def replay(ck, path):
